@@ -22,6 +22,7 @@ from pyvc.tensor import T
 
 REDUCE_UF = [False]
 RED = z3.Function("batch_reduction", z3.RealSort(), z3.RealSort())
+TRED = z3.Function("trainer_default_batch_reduction", z3.RealSort(), z3.RealSort())
 
 
 def recept(x):
@@ -117,6 +118,18 @@ class Env:
         for k, v in state_fields.items():
             if isinstance(v, SV) and v.is_real:
                 self.trainer.fields[k] = c.real("trainer_default_" + k)
+        # the trainer-level default reduction is a DIFFERENT function from the per-cell one (a cell registered with its own
+        # batch_reduction override): a forward that reduces a part with self.batchreduce instead of state.batchreduce hands
+        # the updater trainer_default_batch_reduction(term), which no clause accepts
+        def trainer_batchreduce(it, x, dim=0, **kw):
+            self.reductions.append((x, dim, "trainer_default"))
+            if isinstance(x, T) and x.tlen is None:
+                return T(TRED(tz.coerce(x.f, "float")), "float", None, None, x.eshape)
+            from pyvc.sym import Unsupported
+
+            raise Unsupported("trainer-level batch reduction applied to a tensor with a time axis")
+
+        self.trainer.fields["batchreduce"] = Model(trainer_batchreduce, "trainer.batchreduce(trainer default, not the cell's)")
         self.trainer.fields["__iter_items__"] = [(self.cell, self.state, self.monitors)]
 
     def captured(self, param="weight"):
